@@ -73,9 +73,10 @@ func loadVariants(vd, prop string) []variant {
 			Property string `json:"property"`
 			Expect   string `json:"expect"`
 			Detected *bool  `json:"detected"`
+			Retired  string `json:"retired"`
 		}
-		if json.Unmarshal(mb, &m) != nil || m.Property != prop {
-			continue
+		if json.Unmarshal(mb, &m) != nil || m.Property != prop || m.Retired != "" {
+			continue // a retired seed changed code that a later repair replaced (reason in its meta.json)
 		}
 		if m.Detected == nil || !*m.Detected {
 			continue // not evaluated yet, or recorded as a miss in DESIGN.md: not part of the sensitivity gate
